@@ -58,4 +58,6 @@ TraceAccepted ==
   LET n == TLCGet("stats").diameter - 1 IN
   /\ PrintT(<<"MATCHED", n>>)
   /\ n = Len(TraceLog)
+CMsgDom == {}
+CTextDom == {}
 =============================================================================
